@@ -638,3 +638,139 @@ class Refused:
                     run.violation("refusal_retry", site, "not_ok", "retry outcome %r" % rr.get("outcome"))
             run.stats["retry_ok"] += 1
         return res(REFUSED)
+
+
+# ---------------------------------------------------------------- data frames and copies (added cells)
+def _frame_cells():
+    from collections import OrderedDict
+
+    def creator(cls, kwargs_fn, retry=True):
+        def fn(run, o):
+            b = run.pick("block", o["a"])
+            if b is None:
+                return None
+            bh = run.R(b, 0)
+            existing = names_of(b.data_frames)
+            if cls == "dup_name":
+                if not existing:
+                    return None
+                n = sorted(existing)[o["b"] % len(existing)]
+            elif cls in BAD_NAMES:
+                n = BAD_NAMES[cls]
+            else:
+                n = _unused_name(existing)
+            typ = "" if cls == "empty_type" else "t"
+            rt = None
+            if retry and cls not in ("dup_name",) and cls not in BAD_NAMES:
+                rt = {"op": "create_frame", "blk": o["a"], "name": n, "type": "t", "variant": "col_dict",
+                      "cols": [["a", "int64"]], "rows": [[1]]}
+            return (lambda: bh.create_data_frame(n, typ, **kwargs_fn())), rt
+        CELLS[("create_data_frame", cls)] = fn
+
+    ok = lambda: {"col_dict": OrderedDict([("a", int), ("b", str)]), "data": [[1, "x"]]}  # noqa
+    for c in ("dup_name", "empty_name", "slash_name", "nul_name", "empty_type"):
+        creator(c, ok)
+    creator("no_columns", lambda: {})
+    creator("names_without_types", lambda: {"col_names": ["a", "b"]})
+    creator("duplicate_column_names", lambda: {"col_names": ["a", "a"], "col_dtypes": [int, int]})
+    creator("data_wider_than_schema", lambda: {"col_names": ["a", "b"], "col_dtypes": [int, int], "data": [[1, 2, 3]]})
+    creator("data_of_wrong_type", lambda: {"col_names": ["a"], "col_dtypes": [int], "data": [["text"]]})
+    creator("unknown_column_type", lambda: {"col_names": ["a"], "col_dtypes": ["no-such-type"]})
+
+    def writer(cls, call, need_rows=True):
+        def fn(run, o):
+            frs = [f for f in run.enum("frame") if (f.rows or not need_rows)]
+            if not frs:
+                return None
+            m = frs[o["a"] % len(frs)]
+            h = run.R(m, 0)
+            return (lambda: call(h, m)), None
+        CELLS[("data_frame", cls)] = fn
+
+    from .ops_frame import CELL as FC
+    good_row = lambda m: [FC[t][1] for _, t in m.cols]  # noqa
+    writer("append_column:wrong_length", lambda h, m: h.append_column([1.0] * (len(m.rows) + 1), "zz-new", datatype=float), False)
+    writer("append_column:duplicate_name", lambda h, m: h.append_column([1.0] * len(m.rows), m.cols[0][0], datatype=float), False)
+    writer("append_rows:wrong_width", lambda h, m: h.append_rows([good_row(m) + [1]]), False)
+    writer("write_rows:row_out_of_range", lambda h, m: h.write_rows([good_row(m)], [len(m.rows) + 1]))
+    writer("write_rows:wrong_width", lambda h, m: h.write_rows([good_row(m) + [1]], [0]))
+    writer("write_rows:count_mismatch", lambda h, m: h.write_rows([good_row(m), good_row(m)], [0]))
+    writer("write_column:wrong_length", lambda h, m: h.write_column([FC[m.cols[0][1]][1]] * (len(m.rows) + 1), name=m.cols[0][0]))
+    writer("write_column:unknown_name", lambda h, m: h.write_column([FC[m.cols[0][1]][1]] * len(m.rows), name="no-such-column"))
+    writer("write_column:index_out_of_range", lambda h, m: h.write_column([FC[m.cols[0][1]][1]] * len(m.rows), index=len(m.cols) + 2))
+    writer("write_column:neither_index_nor_name", lambda h, m: h.write_column([1] * len(m.rows)))
+    writer("write_cell:row_out_of_range", lambda h, m: h.write_cell(FC[m.cols[0][1]][1], position=(len(m.rows) + 2, 0)))
+    writer("write_cell:bad_position", lambda h, m: h.write_cell(1, position=(0,)))
+    writer("write_cell:no_address", lambda h, m: h.write_cell(1))
+    writer("write_cell:unknown_column", lambda h, m: h.write_cell(1, col_name="no-such-column", row_idx=0))
+
+
+_frame_cells()
+
+
+def _copy_cells():
+    def into_block(site, attr, meth, kind):
+        def dup(run, o):
+            ents = run.enum(kind)
+            if not ents:
+                return None
+            m = ents[o["a"] % len(ents)]
+            bh = run.R(m.parent_, 0)
+            sh = run.R(m, 0)
+            return (lambda: getattr(bh, meth)(copy_from=sh)), None       # same parent, same name
+
+        def wrong(run, o):
+            b = run.pick("block", o["a"])
+            others = [k for k in ("array", "tag", "mtag", "section") if k != kind and run.enum(k)]
+            if b is None or not others:
+                return None
+            bh = run.R(b, 0)
+            oh = run.R(run.enum(others[0])[0], 0)
+            return (lambda: getattr(bh, meth)(name="cpy", copy_from=oh)), None
+        CELLS[(site, "copy_onto_existing_name")] = dup
+        CELLS[(site, "copy_of_wrong_kind")] = wrong
+    into_block("copy:create_data_array", "data_arrays", "create_data_array", "array")
+    into_block("copy:create_data_frame", "data_frames", "create_data_frame", "frame")
+    into_block("copy:create_tag", "tags", "create_tag", "tag")
+    into_block("copy:create_multi_tag", "multi_tags", "create_multi_tag", "mtag")
+
+    def blk_dup(run, o):
+        b = run.pick("block", o["a"])
+        if b is None:
+            return None
+        f = run.fstate().real
+        bh = run.R(b, 0)
+        return (lambda: f.create_block(copy_from=bh)), None
+    CELLS[("copy:create_block", "copy_onto_existing_name")] = blk_dup
+
+    def sec_dup(run, o):
+        s = run.pick("section", o["a"])
+        if s is None:
+            return None
+        ph = run.R(s.parent_, 0)
+        sh = run.R(s, 0)
+        return (lambda: ph.copy_section(sh)), None
+    CELLS[("copy:copy_section", "copy_onto_existing_name")] = sec_dup
+
+    def sec_wrong(run, o):
+        s = run.pick("section", o["a"])
+        b = run.pick("block", o["b"])
+        if s is None or b is None:
+            return None
+        sh = run.R(s, 0)
+        bh = run.R(b, 0)
+        return (lambda: sh.copy_section(bh)), None
+    CELLS[("copy:copy_section", "copy_of_wrong_kind")] = sec_wrong
+
+    def prop_dup(run, o):
+        p = run.pick("prop", o["a"])
+        if p is None:
+            return None
+        sh = run.R(p.parent_, 0)
+        ph = run.R(p, 0)
+        return (lambda: sh.create_property(copy_from=ph)), None
+    CELLS[("copy:create_property", "copy_onto_existing_name")] = prop_dup
+
+
+_copy_cells()
+CELL_KEYS = sorted(k for k in CELLS if k not in ACCEPTED_NOT_REFUSED)
